@@ -113,13 +113,13 @@ def pySegStream (fb : List PyRange → Nat → FB) (s : Stream) : List FTok → 
   | [], m => .ok m
   | f :: rest, m =>
     (pyLocatorsAndRanges fb (pyRangesFrom 0 s.blocks) f.pos f.len).bind fun segs =>
-      pySegStream fb s rest (pyAddFile m s.name f.name segs)
+      -- the file is filed under the directory part of its combined path (harness convention)
+      let key := splitPath (pathOf s.name f.name)
+      pySegStream fb s rest (pyAddFile m key.1 key.2 segs)
 
 def pySegManifest (fb : List PyRange → Nat → FB) : Manifest → PyMap → Res PyMap
   | [], m => .ok m
-  | s :: rest, m =>
-    let m0 := if m.any (·.1 = s.name) then m else m ++ [(s.name, [])]
-    (pySegStream fb s s.files m0).bind fun m' => pySegManifest fb rest m'
+  | s :: rest, m => (pySegStream fb s s.files m).bind fun m' => pySegManifest fb rest m'
 
 def pyNormalizedText (m : PyMap) : Bytes :=
   (sortBytes (m.map (·.1))).flatMap fun sn =>
